@@ -810,6 +810,9 @@ package redis
 //@ executor "HEXISTS"
 //@ ensures {C12} err == nil && result0 != nil && result0.Type == proto.IntegerMessage
 //@ ensures {C12} (intReply(result0, 1) || intReply(result0, 0))
+// 1 exactly when HGET succeeded and answered a (possibly empty) string: local(err) is the executor's own error variable at the return
+//@ ensures {C12} local(err) == nil ==> intReply(result0, 1) && getRet != nil && isStr(getRet.Type) && getRet.bytes != nil
+//@ ensures {C12} local(err) != nil ==> intReply(result0, 0)
 
 //@ executor "HLEN"
 //@ ensures {C12} err == nil ==> result0 != nil && result0.Type == proto.IntegerMessage
